@@ -334,6 +334,14 @@ def c07(ck):
             ck.mismatch({"kind": "dispatch", "path": m["path"], "fields": m["fields"], "case": m["case"],
                          "obs": m["obs"], "obs_cyc": m["obs_cyc"], "obs_wr": m["obs_wr"]},
                         "dispatch-%s-%s-sp%d" % (m["path"], "-".join(m["fields"]), m["case"]["pre"]["sp"]))
+    # "... and charges five machine cycles": in both builds the five cycles must reach the next step's account (in the jit
+    # build the handler that follows is translated code entered with those cycles pending); interrupt-heavy programs,
+    # cycle accounting only (Trace_Clock without the device observers)
+    import gbprog
+    rng = random.Random(vlib.seed() + 7)
+    scs = gbprog.c08_random(400 if ck.tier == "thorough" else 120, 20, rng)
+    record_and_validate_machine(ck, scs, "c07acct", jit=False, shards=4, validate="Trace_Clock")
+    record_and_validate_machine(ck, scs, "c07acctj", jit=True, shards=4, validate="Trace_Clock")
 
 
 # ------------------------------------------------------------ machine traces
@@ -369,6 +377,9 @@ def record_and_validate_machine(ck, scenarios, tag, jit=False, shards=8, cold=Fa
                     pc = json.loads(line)["o"]["pc"]
                 elif '"ev":"init"' in line:
                     pc = json.loads(line)["cpu"]["pc"]
+                elif '"ev":"crash"' in line:
+                    # the worker that ran this scenario was killed (an abort inside a bus helper, a fault in translated code)
+                    ck.mismatch({"kind": "crash", "tag": tag, "jit": jit, "record": json.loads(line), "trace": tp}, "crash-" + tag)
                 elif '"ev":"panic"' in line:
                     # a guest that runs off into memory instructions cannot be fetched from (video / cartridge RAM, echo RAM,
                     # OAM, the I/O page, IE) stops the emulator by design (Machine.tla: ExecM is not ok there): the scenario
@@ -392,7 +403,8 @@ def record_and_validate_machine(ck, scenarios, tag, jit=False, shards=8, cold=Fa
 
 
 def validate_traces(ck, files, module, tag, jit=False):
-    jobs = [dict(module=module, env={"TRACE": tp}, dfs=True, check=False, timeout=3000, xmx="3g", light=len(files) > 3) for tp in files]
+    xenv = {"PACE": "1"} if (module == "Trace_Clock" and ck.prop == "C09") else {}
+    jobs = [dict(module=module, env=dict({"TRACE": tp}, **xenv), dfs=True, check=False, timeout=3000, xmx="3g", light=len(files) > 3) for tp in files]
     rs = vlib.tlc_parallel(jobs)
     allok = True
     for tp, r in zip(files, rs):
@@ -541,6 +553,15 @@ def c12(ck):
     fj = record_and_validate_machine(ck, fs, "c10fetchj", jit=True, shards=4, validate=False)
     compare_traces(ck, fj, fi, "fetch-straddle", "jit", "interp")
     ck.traces += 2 * len(fs)
+    # ... and the bank the recompiler executes from is the bank the controller selects: every history of length 3 over
+    # "select bank 1 / 2 / 3" and "call the block at 0x4000 / 0x4010 / in the fixed bank" (the selecting store and the
+    # call that follows share a block), both builds compared
+    import itertools
+    hs = [gbprog.cache_history_scenario(6300000 + n, list(seq), (0x11, 2, 0)) for n, seq in enumerate(itertools.product(range(6), repeat=3))]
+    hi = record_and_validate_machine(ck, hs, "c12histi", jit=False, shards=4, validate=False)
+    hj = record_and_validate_machine(ck, hs, "c12histj", jit=True, shards=4, validate=False)
+    compare_traces(ck, hj, hi, "bank-histories", "jit", "interp")
+    ck.traces += 2 * len(hs)
 
 
 def split_trace_init(path, maxlines):
@@ -610,7 +631,7 @@ def c11(ck):
     # word accesses and stack operations at the edges, executed as instructions (both engines share the helpers)
     import gbprog
     rng = random.Random(vlib.seed() + 11)
-    scs = gbprog.edge_access_programs(rng)
+    scs = gbprog.edge_access_programs(rng) + gbprog.serial_flood_programs()
     record_and_validate_machine(ck, scs, "c11edge", jit=False, shards=4, validate=False)     # completion is the observation
     record_and_validate_machine(ck, [dict(x, mode="block") for x in scs], "c11edgej", jit=True, shards=4, validate=False)
 
@@ -655,6 +676,14 @@ def c10(ck):
     fj = record_and_validate_machine(ck, fs, "c10fetchj", jit=True, shards=4, validate=False)
     compare_traces(ck, fj, fi, "fetch-straddle", "jit", "interp")
     ck.traces += 2 * len(fs)
+    # ... and what the recompiler executes at an address is what is mapped there now: every history of length 3 over "select
+    # bank 1 / 2 / 3" and "call the block at 0x4000 / 0x4010 / in the fixed bank", both builds compared
+    import itertools
+    hs = [gbprog.cache_history_scenario(6400000 + n, list(seq), (0x11, 2, 0)) for n, seq in enumerate(itertools.product(range(6), repeat=3))]
+    hi = record_and_validate_machine(ck, hs, "c10histi", jit=False, shards=4, validate=False)
+    hj = record_and_validate_machine(ck, hs, "c10histj", jit=True, shards=4, validate=False)
+    compare_traces(ck, hj, hi, "bank-histories", "jit", "interp")
+    ck.traces += 2 * len(hs)
 
 
 # ------------------------------------------------- instruction-level family
@@ -786,7 +815,7 @@ def c06(ck):
     ck.exhaustive = True
     # instructions straddling the end of a fetch region
     import gbprog
-    scs = gbprog.straddle_programs()
+    scs = gbprog.straddle_programs() + gbprog.jump_to_next_programs()
     files = record_and_validate_machine(ck, scs, "c06straddle", jit=False, shards=2)
     # the interpreter as a block stepper (cycles accumulate over a block): random blocks against Machine!StepBlock
     rb = gbprog.random_blocks(6000 if thorough else 600, random.Random(vlib.seed() + 6))
@@ -1009,9 +1038,13 @@ def c03(ck):
     # ... and cartridges on which one of the three bank numbers is a multiple of the bank count (MBC3 with 4 banks: 4; MBC1
     # with 8 banks: 8), which maps the image's first 16 KiB -- different code again -- at 0x4000
     for cart, bankmap in (((1, 2, 0), (1, 2, 3)), ((0x11, 2, 0), (1, 2, 3)), ((0x11, 5, 0), (1, 33, 2)), ((0x11, 0x52, 0), (1, 9, 2)),
-                          ((0x11, 1, 0), (1, 4, 2)), ((1, 2, 0), (1, 8, 2))):
+                          ((0x11, 1, 0), (1, 4, 2)), ((1, 2, 0), (1, 8, 2)),
+                          # ... and two-bank images behind a controller: even bank numbers show the first 16 KiB, odd ones the second
+                          ((1, 0, 0), (1, 2, 3)), ((0x11, 0, 0), (1, 2, 3))):
         tag = "mbc%d_%d_%d" % (1 if cart[0] == 1 else 3, cart[1], bankmap[1])
         sel = hists + hists9 if (cart, bankmap[1]) in (((1, 2, 0), 2), ((0x11, 5, 0), 33)) else [h for h in hists if h["id"] % 3 == 0] + hists9
+        if cart[1] in (0, 1) or bankmap[1] == 8:
+            sel = [h for h in hists if h["id"] % 6 == 0] + hists9[::2]       # the small cartridges: a thinner selection
         scs = [gbprog.cache_history_scenario(h["id"], h["steps"], cart, bankreg=0x2000 if h["id"] % 2 == 0 else 0x3FFF, bankmap=bankmap) for h in sel]
         warm = record_and_validate_machine(ck, scs, "c03w" + tag, jit=True, shards=8, validate=False)
         cold = record_and_validate_machine(ck, scs, "c03c" + tag, jit=True, shards=8, cold=True, validate=False)
@@ -1023,6 +1056,8 @@ def c03(ck):
         # binding to the whole-machine specification (diagnosis: a deviation common to all three modes is not C03's)
         validate_traces(Diag(ck), warm, "Trace_Machine", "c03w" + tag, True)
         for name, fl in (("warm", warm), ("cold", cold)):
+            if cart[1] == 0:
+                break         # (two banks: three bank numbers, two images -- the three-mode equality above is the verdict)
             evf = []
             for i, tp in enumerate(fl):
                 ev = gbprog.cache_events(open(tp).read().splitlines())
